@@ -19,7 +19,8 @@ granularity is lockruns.py's matter), executed in schedule order, so a run is de
 
 Inside every process the primitives FileLock performs on its lock file (os.open / fcntl.flock / os.close in
 datashard.file_lock's namespace) are logged with the REAL kernel's answers; `project` turns the log into an event list of
-coq/Model/ProcLock.v (handles, process topology, one LFork per inherited handle, LKill per death).
+coq/Model/ProcLock.v + ProcFork.v (handles, process topology, one PFork per fork() naming the copy of EVERY handle of the
+forking process -- the whole descriptor table --, LKill per death).
 
 Oracles (implementation only; `problems`), judged after every event.  An ACQUISITION begins when some acquire() returns
 True; its members are the handle that acquired plus every copy of it made by a fork while it was held (fork(2) duplicates
@@ -554,8 +555,8 @@ class Nonconforming(Exception):
 
 def project(run: FamilyRun) -> Tuple[str, Dict[Tuple[int, Any], int], int]:
     """The run's lock-file primitives as an event list of Model/ProcLock.v: handles = (process, handle object) in order of
-    first use, topology = the process each lives in, one LStep per primitive carrying the REAL kernel's answer, one LFork
-    per handle a forked child inherits, one LKill per death.  Returns (Gallina term, handle numbering, #opens)."""
+    first use, topology = the process each lives in, one LStep per primitive carrying the REAL kernel's answer, one PFork
+    per fork() (Model/ProcFork.v: the copies of ALL handles of the forking process), one LKill per death.  Returns (Gallina term, handle numbering, #opens)."""
     handles: Dict[Tuple[int, Any], int] = {}
     procs: List[int] = []
     pidx: Dict[int, int] = {}
@@ -564,16 +565,22 @@ def project(run: FamilyRun) -> Tuple[str, Dict[Tuple[int, Any], int], int]:
     opens = 0
     for i, e in enumerate(run.locklog):
         if e["prim"] == "fork":
+            # fork(2): ONE event for the whole process -- every handle object the parent has used so far gets its copy in
+            # the child (handles never used are idle objects without a descriptor: nothing to record); the model refuses
+            # the event (Model/ProcFork.v `covers`) if a descriptor of the parent were left out
+            pp = pidx.setdefault(e["pid"], len(pidx))
             cp = pidx.setdefault(e["child"], len(pidx))
+            tw: List[str] = []
             for (ppid, hobj), h in list(handles.items()):
                 if ppid == e["pid"]:
                     handles[(e["child"], hobj)] = len(handles)
                     procs.append(cp)
-                    evs.append(f"LFork {h} {handles[(e['child'], hobj)]}")
+                    tw.append(f"({h}, {handles[(e['child'], hobj)]})")
+            evs.append(f"PFork {pp} {cp} [" + "; ".join(tw) + "]")
             continue
         if e["prim"] == "kill":
             if e["pid"] in pidx:
-                evs.append(f"LKill {pidx[e['pid']]}")
+                evs.append(f"PEv (LKill {pidx[e['pid']]})")
             continue
         if not e.get("known", False):
             raise Nonconforming(f"primitive outside the vocabulary of the lock layer (os.open O_CREAT|O_RDWR, flock LOCK_EX|LOCK_NB, "
@@ -600,8 +607,8 @@ def project(run: FamilyRun) -> Tuple[str, Dict[Tuple[int, Any], int], int]:
         else:
             raise Nonconforming(f"unknown lock primitive at locklog[{i}]: {prim}")
         last[h] = k
-        evs.append(f"LStep {h} ({k})")
+        evs.append(f"PEv (LStep {h} ({k}))")
     topo = "(fun h => nth h [" + "; ".join(str(p) for p in procs) + "] 0)%nat"
-    term = (f"match lrun_strict gen_lock_disc {topo} linit ([" + "; ".join(evs) + "]%nat) 0%nat with "
+    term = (f"match prun_strict gen_lock_disc {topo} linit ([" + "; ".join(evs) + "]%nat) 0%nat with "
             f"| inl s => (1, lsummary s) | inr i => (0, (None, i, 0%nat)) end")
     return term, handles, opens
